@@ -23,7 +23,6 @@ import (
 	"math/big"
 	"net"
 	"net/http"
-	"os"
 	"regexp"
 	"sort"
 	"strconv"
@@ -80,7 +79,9 @@ func (t *c16RT) RoundTrip(req *http.Request) (*http.Response, error) {
 		h.Set("Content-Length", t.reply.cl)
 	}
 	if t.reply.cc != "" {
-		h.Set("Cache-Control", t.reply.cc)
+		for _, line := range strings.Split(t.reply.cc, "\n") { // one field line per text line
+			h.Add("Cache-Control", line)
+		}
 	}
 	if t.reply.expires != "" {
 		h.Set("Expires", t.reply.expires)
@@ -114,6 +115,8 @@ type c16SRVEntry struct {
 type c16DNS struct {
 	table map[string]c16SRVEntry // lower-case query name without final dot
 	log   []string
+	sink  func(name string) // optional: told of every SRV question as it arrives
+	hosts map[string]string // optional: A records (lower-case name -> IPv4 address)
 }
 
 type c16DNSConn struct {
@@ -179,9 +182,26 @@ func (d *c16DNS) answer(q []byte) ([]byte, error) {
 	e, known := d.table[strings.ToLower(name)]
 	if qtype == 33 {
 		d.log = append(d.log, name)
+		if d.sink != nil {
+			d.sink(name)
+		}
 	}
 	if !known || qtype != 33 {
 		e = c16SRVEntry{kind: "nxdomain"}
+	}
+	if a, ok := d.hosts[strings.ToLower(name)]; ok && (qtype == 1 || qtype == 28) {
+		// address questions (only what does not go through the DNS cache asks them)
+		resp := make([]byte, 12)
+		copy(resp[0:2], q[0:2])
+		binary.BigEndian.PutUint16(resp[2:4], uint16(0x8000|0x0400|0x0080)|(binary.BigEndian.Uint16(q[2:4])&0x0100))
+		binary.BigEndian.PutUint16(resp[4:6], 1)
+		resp = append(resp, q[12:qend]...)
+		if ip := net.ParseIP(a).To4(); qtype == 1 && ip != nil {
+			binary.BigEndian.PutUint16(resp[6:8], 1)
+			resp = append(resp, 0xC0, 0x0C, 0, 1, 0, 1, 0, 0, 0, 60, 0, 4)
+			resp = append(resp, ip...)
+		}
+		return resp, nil
 	}
 	if e.kind == "writeerr" {
 		return nil, errors.New("stub: network unreachable")
@@ -225,6 +245,19 @@ func (c *c16DNSConn) RemoteAddr() net.Addr               { return &net.TCPAddr{I
 func (c *c16DNSConn) SetDeadline(t time.Time) error      { return nil }
 func (c *c16DNSConn) SetReadDeadline(t time.Time) error  { return nil }
 func (c *c16DNSConn) SetWriteDeadline(t time.Time) error { return nil }
+
+// withDNSStub runs f with net.DefaultResolver replaced (http.DefaultTransport stays the real one).
+func withDNSStub(d *c16DNS, f func()) {
+	oldR := net.DefaultResolver
+	net.DefaultResolver = &net.Resolver{
+		PreferGo: true,
+		Dial: func(ctx context.Context, network, address string) (net.Conn, error) {
+			return &c16DNSConn{d: d}, nil
+		},
+	}
+	defer func() { net.DefaultResolver = oldR }()
+	f()
+}
 
 // withStubs runs f with http.DefaultTransport and net.DefaultResolver replaced.
 func withStubs(rt *c16RT, d *c16DNS, f func()) {
@@ -439,8 +472,6 @@ func init() {
 		switch mode {
 		case "cache", "client-cache":
 			cache := fclient.VerifNewDNSCache(8, time.Minute, allow, deny, resolver)
-			// DNSCache.DialContext builds the address as addr.String() + ":" + port
-			dialled = listenIP + ":" + port
 			if target == "retry4" {
 				answer = "127.0.0.2" // nothing listens there
 				cache.VerifLookup("verif-retry.test")
@@ -586,17 +617,20 @@ func init() {
 		return final, B(strings.Join(out, "\n"))
 	})
 
-	// Round trips through a real client (well-known / SRV lookups on, DNS cache whose resolver
-	// sends every name to 127.0.0.1) to real TLS listeners that fail the first k handshakes.
-	// [name; wksrv; k; nrt; dead ports; wkmode; status; cl; cc; ex; bm; body; now; SRV table...]
-	// PORT / CLOSED in name, body, dead list and SRV ports stand for the listener's port and for
-	// a port nothing listens on; they are replaced before the run and in the final arguments.
+	// Round trips through a real client (lookups on or off, allow / deny lists, a DNS cache whose
+	// resolver maps names to loopback addresses) to real listeners: an HTTPS server on port 443
+	// answering the .well-known request, TLS listeners for the federation requests that fail the
+	// first k handshakes. Every TCP connection the listeners accept is part of the observable.
+	// [name; wksrv; k; nrt; dead ports; nallow; allow...; ndeny; deny...; nhosts; (host; address)...;
+	//  wkmode; status; cl; cc; ex; bm; body; now; SRV table...]
+	// PORT / CLOSED in name, body, dead list and SRV ports stand for the federation listener's port
+	// and for a port nothing listens on; they are replaced before the run and in the final arguments.
 	RegisterImpl("C16.round_trip", func(args [][]byte) ([][]byte, []byte) {
-		srv, err := newC16TLSServer()
+		srv, err := c16Server()
 		if err != nil {
 			return args, B("nolisten: " + err.Error())
 		}
-		defer srv.close()
+		srv.reset()
 		sub := func(b []byte) []byte {
 			t := strings.ReplaceAll(string(b), "PORT", srv.port)
 			return B(strings.ReplaceAll(t, "CLOSED", srv.closedPort))
@@ -605,7 +639,7 @@ func init() {
 		for i, a := range args {
 			in[i] = sub(a)
 		}
-		if !srv.has8448 {
+		if !srv.has8448 && !strings.Contains(","+string(in[4])+",", ",8448,") {
 			if len(in[4]) > 0 {
 				in[4] = append(in[4], ',')
 			}
@@ -614,26 +648,59 @@ func init() {
 		name := string(in[0])
 		k, _ := strconv.Atoi(string(in[2]))
 		nrt, _ := strconv.Atoi(string(in[3]))
+		i := 5
+		list := func() []string {
+			n, _ := strconv.Atoi(string(in[i]))
+			i++
+			l := []string{}
+			for j := 0; j < n; j++ {
+				l = append(l, string(in[i]))
+				i++
+			}
+			return l
+		}
+		allow, deny := list(), list()
+		nh, _ := strconv.Atoi(string(in[i]))
+		i++
+		hosts := map[string]string{}
+		for j := 0; j < nh; j++ {
+			hosts[string(in[i])] = string(in[i+1])
+			i += 2
+		}
+		wkAt := i
 		srv.failRemaining = k
-		st, _ := strconv.Atoi(string(in[6]))
-		rt := &c16RT{reply: c16Reply{netErr: string(in[5]) != "reply", status: st, cl: string(in[7]), cc: string(in[8]),
-			bodyMode: string(in[10]), body: in[11]}}
+		st, _ := strconv.Atoi(string(in[wkAt+1]))
+		srv.wk = c16Reply{netErr: string(in[wkAt]) != "reply", status: st, cc: string(in[wkAt+3]), body: in[wkAt+6]}
+		srv.wkName = name
 		d := &c16DNS{table: map[string]c16SRVEntry{}}
-		keyNames := c16KnownNames(name, in[11])
-		final := append([][]byte{}, in[:13]...)
-		final = c16LoadSRV(in, 13, d, keyNames, final)
-		cache := fclient.VerifNewDNSCache(64, time.Minute, []string{"0.0.0.0/0"}, nil, func(host string) ([]net.IPAddr, error) {
+		keyNames := c16KnownNames(name, in[wkAt+6])
+		d.sink = func(q string) {
+			for _, l := range c16ProbeLines([]string{q}, keyNames) {
+				srv.event(l)
+			}
+		}
+		final := append([][]byte{}, in[:wkAt+8]...)
+		final = c16LoadSRV(in, wkAt+8, d, keyNames, final)
+		cache := fclient.VerifNewDNSCache(64, time.Minute, allow, deny, func(host string) ([]net.IPAddr, error) {
 			if ip := net.ParseIP(host); ip != nil {
 				return []net.IPAddr{{IP: ip}}, nil
+			}
+			if a, ok := hosts[host]; ok {
+				return []net.IPAddr{{IP: net.ParseIP(a)}}, nil
 			}
 			return []net.IPAddr{{IP: net.IPv4(127, 0, 0, 1)}}, nil
 		})
 		cl := fclient.NewClient(fclient.WithWellKnownSRVLookups(string(in[1]) == "1"), fclient.WithDNSCache(cache),
-			fclient.WithSkipVerify(true), fclient.WithTimeout(5*time.Second))
-		var out []string
-		withStubs(rt, d, func() {
-			for i := 0; i < nrt; i++ {
-				h0, d0, a0 := len(rt.log), len(d.log), srv.logLen()
+			fclient.WithAllowDenyNetworks(allow, deny), fclient.WithSkipVerify(true), fclient.WithTimeout(5*time.Second))
+		// Nothing is stubbed on the HTTP side: whatever leaves through the process-wide default
+		// transport instead of the client's dialers resolves the name through the stub's A records
+		// and really connects, so the listeners see it.
+		d.hosts = map[string]string{}
+		for h, a := range hosts {
+			d.hosts[strings.ToLower(h)] = a
+		}
+		withDNSStub(d, func() {
+			for r := 0; r < nrt; r++ {
 				ok := false
 				if req, err := http.NewRequest("GET", "matrix://"+name+"/_matrix/federation/v1/version", nil); err == nil {
 					if resp, err := cl.DoHTTPRequest(context.Background(), req); err == nil {
@@ -641,16 +708,16 @@ func init() {
 						resp.Body.Close()
 					}
 				}
-				out = append(out, rt.log[h0:]...)
-				out = append(out, c16ProbeLines(d.log[d0:], keyNames)...)
-				out = append(out, srv.logFrom(a0)...)
+				srv.dedupeProbes()
 				if ok {
-					out = append(out, "RT ok")
+					srv.event("RT ok")
 				} else {
-					out = append(out, "RT err")
+					srv.event("RT err")
 				}
 			}
 		})
+		http.DefaultTransport.(*http.Transport).CloseIdleConnections()
+		out := srv.logFrom(0)
 		return final, B(strings.Join(out, "\n"))
 	})
 
@@ -668,6 +735,50 @@ type c16TLSServer struct {
 	closedPort    string
 	has8448       bool
 	servers       []*http.Server
+	wk            c16Reply // what the port-443 server answers to the .well-known request
+	wkName        string
+}
+
+// a listener that reports every accepted connection with the LOCAL address it arrived at
+type c16LoggingListener struct {
+	net.Listener
+	s         *c16TLSServer
+	closeFast func() bool
+}
+
+func (l *c16LoggingListener) Accept() (net.Conn, error) {
+	for {
+		c, err := l.Listener.Accept()
+		if err != nil {
+			return nil, err
+		}
+		l.s.event("C " + c.LocalAddr().String())
+		if l.closeFast != nil && l.closeFast() {
+			c.Close()
+			continue
+		}
+		return c, nil
+	}
+}
+
+func (s *c16TLSServer) event(l string) {
+	s.mu.Lock()
+	s.log = append(s.log, l)
+	s.mu.Unlock()
+}
+
+// a question the resolver repeats (second attempt after SERVFAIL) counts once
+func (s *c16TLSServer) dedupeProbes() {
+	s.mu.Lock()
+	defer s.mu.Unlock()
+	var out []string
+	for _, l := range s.log {
+		if strings.HasPrefix(l, "P S ") && len(out) > 0 && out[len(out)-1] == l {
+			continue
+		}
+		out = append(out, l)
+	}
+	s.log = out
 }
 
 var c16Cert *tls.Certificate
@@ -697,7 +808,7 @@ func newC16TLSServer() (*c16TLSServer, error) {
 		return nil, err
 	}
 	s := &c16TLSServer{sni: map[string]string{}}
-	serve := func(ln net.Listener, port string) {
+	serveFed := func(ln net.Listener, port string) {
 		cfg := &tls.Config{Certificates: []tls.Certificate{*cert}}
 		cfg.GetConfigForClient = func(h *tls.ClientHelloInfo) (*tls.Config, error) {
 			s.mu.Lock()
@@ -719,17 +830,48 @@ func newC16TLSServer() (*c16TLSServer, error) {
 				_, _ = w.Write([]byte("{}"))
 			})}
 		s.servers = append(s.servers, hs)
-		go func() { _ = hs.ServeTLS(ln, "", "") }()
+		go func() { _ = hs.ServeTLS(&c16LoggingListener{Listener: ln, s: s}, "", "") }()
 	}
-	ln, err := net.Listen("tcp4", "127.0.0.1:0")
+	// all of 127.0.0.0/8 is local: listening on every address lets a case give names distinct addresses
+	ln443, err := net.Listen("tcp4", "0.0.0.0:443")
 	if err != nil {
 		return nil, err
 	}
+	wkServer := &http.Server{TLSConfig: &tls.Config{Certificates: []tls.Certificate{*cert}}, ErrorLog: log.New(io.Discard, "", 0),
+		Handler: http.HandlerFunc(func(w http.ResponseWriter, r *http.Request) {
+			if r.URL.Path != "/.well-known/matrix/server" {
+				s.event("P W? " + r.Host + r.URL.Path)
+				w.WriteHeader(404)
+				return
+			}
+			s.event("P W " + r.Host)
+			if s.wk.status/100 == 3 && r.Host == s.wkName {
+				w.Header().Set("Location", string(s.wk.body))
+				w.WriteHeader(s.wk.status)
+				return
+			}
+			for _, line := range strings.Split(s.wk.cc, "\n") {
+				if line != "" {
+					w.Header().Add("Cache-Control", line)
+				}
+			}
+			w.WriteHeader(s.wk.status)
+			_, _ = w.Write(s.wk.body)
+		})}
+	s.servers = append(s.servers, wkServer)
+	go func() {
+		_ = wkServer.ServeTLS(&c16LoggingListener{Listener: ln443, s: s, closeFast: func() bool { return s.wk.netErr }}, "", "")
+	}()
+	ln, err := net.Listen("tcp4", "0.0.0.0:0")
+	if err != nil {
+		s.close()
+		return nil, err
+	}
 	_, s.port, _ = net.SplitHostPort(ln.Addr().String())
-	serve(ln, s.port)
-	if ln2, err := net.Listen("tcp4", "127.0.0.1:8448"); err == nil {
+	serveFed(ln, s.port)
+	if ln2, err := net.Listen("tcp4", "0.0.0.0:8448"); err == nil {
 		s.has8448 = true
-		serve(ln2, "8448")
+		serveFed(ln2, "8448")
 	}
 	if c, err := net.Listen("tcp4", "127.0.0.1:0"); err == nil {
 		_, s.closedPort, _ = net.SplitHostPort(c.Addr().String())
@@ -738,16 +880,32 @@ func newC16TLSServer() (*c16TLSServer, error) {
 	return s, nil
 }
 
+// one set of listeners for the whole run (ports 443 and 8448 stay bound; closing and binding
+// again between cases races with the closing goroutines)
+var c16TheServer *c16TLSServer
+var c16TheServerErr error
+
+func c16Server() (*c16TLSServer, error) {
+	if c16TheServer == nil && c16TheServerErr == nil {
+		c16TheServer, c16TheServerErr = newC16TLSServer()
+	}
+	return c16TheServer, c16TheServerErr
+}
+
+func (s *c16TLSServer) reset() {
+	s.mu.Lock()
+	defer s.mu.Unlock()
+	s.log = nil
+	s.failRemaining = 0
+	s.sni = map[string]string{}
+	s.wk = c16Reply{}
+	s.wkName = ""
+}
+
 func (s *c16TLSServer) close() {
 	for _, hs := range s.servers {
 		_ = hs.Close()
 	}
-}
-
-func (s *c16TLSServer) logLen() int {
-	s.mu.Lock()
-	defer s.mu.Unlock()
-	return len(s.log)
 }
 
 func (s *c16TLSServer) logFrom(i int) []string {
@@ -1405,7 +1563,7 @@ func genC16WellKnown(c *Ctx) {
 	ccs := []string{"", "max-age=60", "public, max-age=60", "MAX-AGE=60", "Max-Age=61", "max-age=60, max-age=120", "max-age=120, max-age=abc",
 		"max-age=abc", "max-age=", "max-age =60", "max-age= 60", " max-age=60 ", "  max-age=60", "max-age=-5", "max-age=9223372036854775807",
 		"max-age=9223372036854775808", "max-age=-9223372036854775808", "s-maxage=60", "max-age=60=1", "max-age", "no-cache", "max-age=+7", "\tmax-age=60",
-		"max-age=60;x", "max-age=0", "no-store,max-age=5,private", ",", ",,max-age=9", "maxage=60", "max-age=00060", "x=max-age=60", "max-age=6 0"}
+		"max-age=60;x", "max-age=0", "public\nmax-age=60", "max-age=60\nmax-age=abc", "max-age=abc\nmax-age=61", "no-cache\nprivate", "public\n\nmax-age=62", "a=1, b\nMax-Age=63 , c", "max-age=9223372036854775806", "max-age=9223372035000000000", "public\nmax-age=9223372036854775807", "no-store,max-age=5,private", ",", ",,max-age=9", "maxage=60", "max-age=00060", "x=max-age=60", "max-age=6 0"}
 	exps := []string{"", "Wed, 21 Oct 2065 07:28:00 GMT", "Thu, 01 Jan 1970 00:00:00 GMT", "garbage", "Wed, 21 Oct 2065 07:28:00 UTC",
 		"Wed, 21 Oct 2015 07:28:00 +0000", "Wed, 21 Oct 2065 07:28:00 PST", "0", "Sun, 06 Nov 1994 08:49:37 GMT", "Sunday, 06-Nov-94 08:49:37 GMT"}
 	ok := `{"m.server":"delegate.example.net:443"}`
@@ -1463,17 +1621,7 @@ func genC16WellKnown(c *Ctx) {
 	run("200", "", "", "", "ok", padTo(ok, c16Max-1)+`x`, "garbage as the last permitted byte")
 }
 
-// VERIF_C16_UNREPAIRED=1 compares against the model of the code as first found (before the
-// fix: commits for F13, F23, F24) and switches the specification oracles off: used once to
-// confirm that the unrepaired model is exact for the unrepaired code, and kept for that purpose.
-var c16Unrepaired = os.Getenv("VERIF_C16_UNREPAIRED") != ""
-
-func c16Ops(corr, prop string) (string, string) {
-	if c16Unrepaired {
-		return corr + "_unrepaired", ""
-	}
-	return corr, prop
-}
+func c16Ops(corr, prop string) (string, string) { return corr, prop }
 
 // connections really attempted, through DNSCache.DialContext and through NewClient, to listeners
 // on 127.0.0.1 and [::1]: by IP literal, by IPv4-mapped literal, by a name resolving there and
@@ -1519,23 +1667,15 @@ func genC16Dial(c *Ctx) {
 	}
 }
 
-// Round trips whose first attempts fail, for every resolution step; every attempt the listeners
-// see (both passes, both round trips) is checked against the resolution of the ORIGINAL name.
+// Round trips whose first attempts fail, for every resolution step, under allow / deny lists that
+// forbid nothing / the well-known host only / the final target only / both; every connection and
+// every attempt the listeners see (both passes, both round trips) is checked.
 func genC16RoundTrip(c *Ctx) {
 	rtOp, rtProp := c16Ops("C16.round_trip", "C16.prop.round_trip")
-	if c16Unrepaired {
-		rtOp = "C16.round_trip" // the retry logic was not touched by the repairs
-	}
-	if s, err := newC16TLSServer(); err != nil {
-		c.Count("round_trip.skipped-no-loopback")
+	if _, err := c16Server(); err != nil {
+		c.Count("round_trip.skipped-cannot-listen-on-443")
 		return
-	} else {
-		s.close()
 	}
-	one := func(t string, p string) *c16SRVEntry {
-		return &c16SRVEntry{kind: "ok", recs: []c16SRVRec{{target: t, priority: 10}}}
-	}
-	_ = one
 	type plan struct {
 		label, name, wks string
 		wk               c16WK
@@ -1546,43 +1686,88 @@ func genC16RoundTrip(c *Ctx) {
 	}
 	none := c16WK{label: "404", status: 404, mode: "ok"}
 	plans := []plan{
-		{"ip-literal+port", "127.0.0.1:PORT", "1", none, nil},
-		{"ip-literal", "127.0.0.1", "1", none, nil},
+		{"ip-literal+port", "127.0.0.3:PORT", "1", none, nil},
+		{"ip-literal", "127.0.0.3", "1", none, nil},
 		{"explicit-port", "example.com:PORT", "1", none, nil},
 		{"wk->name+port", "example.com", "1", to("delegate.example.net:PORT"), [][]string{{"matrix-fed", "example.com", "ok", "decoy.example", "PORT", "1"}}},
-		{"wk->ip+port", "example.com", "1", to("127.0.0.1:PORT"), nil},
-		{"wk->ip", "example.com", "1", to("127.0.0.1"), nil},
+		{"wk->ip+port", "example.com", "1", to("127.0.0.3:PORT"), nil},
+		{"wk->ip", "example.com", "1", to("127.0.0.3"), nil},
 		{"wk->name->srv", "example.com", "1", to("delegate.example.net"), [][]string{{"matrix-fed", "delegate.example.net", "ok", "fed.target.example", "PORT", "10"}, {"matrix-fed", "example.com", "ok", "decoy.example", "PORT", "1"}}},
 		{"wk->name->8448", "example.com", "1", to("delegate.example.net"), nil},
 		{"srv-fed", "example.com", "1", none, [][]string{{"matrix-fed", "example.com", "ok", "fed.target.example", "PORT", "10"}}},
-		{"srv-legacy", "example.com", "1", c16WK{label: "neterr", neterr: true, mode: "ok"}, [][]string{{"matrix", "example.com", "ok", "legacy.target.example", "PORT", "10"}}},
-		{"srv-two-live", "example.com", "1", none, [][]string{{"matrix-fed", "example.com", "ok", "b.target.example", "PORT", "20", "a.target.example", "PORT", "10"}}},
-		{"srv-dead-then-live", "example.com", "1", none, [][]string{{"matrix-fed", "example.com", "ok", "b.target.example", "PORT", "20", "a.target.example", "CLOSED", "10"}}},
+		{"srv-legacy", "example.com", "1", c16WK{label: "neterr", neterr: true, mode: "ok"}, [][]string{{"matrix", "example.com", "ok", "fed.target.example", "PORT", "10"}}},
+		{"srv-two-live", "example.com", "1", none, [][]string{{"matrix-fed", "example.com", "ok", "fed.target.example", "PORT", "20", "a.target.example", "PORT", "10"}}},
+		{"srv-dead-then-live", "example.com", "1", none, [][]string{{"matrix-fed", "example.com", "ok", "fed.target.example", "PORT", "20", "a.target.example", "CLOSED", "10"}}},
 		{"srv-all-dead", "example.com", "1", none, [][]string{{"matrix-fed", "example.com", "ok", "a.target.example", "CLOSED", "10"}}},
 		{"fallback-8448", "example.com", "1", none, nil},
 		{"invalid-name", "exa_mple.com", "1", none, nil},
-		{"invalid-delegate", "example.com", "1", to("bad name"), nil},
+		{"wk->invalid, srv", "example.com", "1", to("https://delegate.example.net"), [][]string{{"matrix-fed", "example.com", "ok", "fed.target.example", "PORT", "10"}}},
+		{"wk->invalid, 8448", "example.com", "1", to("not a server name"), nil},
+		{"wk->invalid trailing slash", "example.com", "1", to("delegate.example.net:8448/"), nil},
 		{"lookups-off name+port", "example.com:PORT", "0", none, nil},
-		{"lookups-off ip+port", "127.0.0.1:PORT", "0", none, nil},
+		{"lookups-off ip+port", "127.0.0.3:PORT", "0", none, nil},
 	}
-	for _, p := range plans {
-		for k := 0; k <= 5; k++ {
-			for nrt := 1; nrt <= 2; nrt++ {
-				mode := "reply"
-				if p.wk.neterr {
-					mode = "neterr"
-				}
-				a := Args(p.name, p.wks, strconv.Itoa(k), strconv.Itoa(nrt), "CLOSED", mode, strconv.Itoa(p.wk.status), "", "", "", p.wk.mode, p.wk.body, "0")
-				for _, e := range p.srv {
-					a = append(a, B(e[0]), B(e[1]), B(e[2]), B(strconv.Itoa((len(e)-3)/3)))
-					for _, x := range e[3:] {
-						a = append(a, B(x))
-					}
-				}
-				c.Run("C16.round_trip", a, rtOp, rtProp, fmt.Sprintf("round trip %s, first %d handshakes fail, %d round trips", p.label, k, nrt))
-				c.Count("round_trip." + p.label)
+	// example.com (the well-known host) lives at 127.0.0.2, everything a request can end up at
+	// at 127.0.0.3 (literals) or 127.0.0.4 (delegates and SRV targets)
+	hosts := []string{"example.com", "127.0.0.2", "delegate.example.net", "127.0.0.4", "fed.target.example", "127.0.0.4",
+		"a.target.example", "127.0.0.4", "decoy.example", "127.0.0.5", "redirected.example", "127.0.0.6"}
+	all := []string{"0.0.0.0/0", "::/0"}
+	policies := []struct {
+		label       string
+		allow, deny []string
+	}{
+		{"open", all, nil},
+		{"well-known host denied", all, []string{"127.0.0.2/32"}},
+		{"targets denied", all, []string{"127.0.0.3/32", "127.0.0.4/32"}},
+		{"both denied", all, []string{"bad", "127.0.0.2/31", "127.0.0.4/32"}},
+		{"only the targets allowed", []string{"127.0.0.3/32", "127.0.0.4/32"}, nil},
+		{"loopback denied", all, []string{"127.0.0.0/8"}},
+	}
+	mk := func(p plan, k, nrt int, allow, deny []string) [][]byte {
+		mode := "reply"
+		if p.wk.neterr {
+			mode = "neterr"
+		}
+		a := Args(p.name, p.wks, strconv.Itoa(k), strconv.Itoa(nrt), "CLOSED", strconv.Itoa(len(allow)))
+		a = append(a, Args(allow...)...)
+		a = append(a, B(strconv.Itoa(len(deny))))
+		a = append(a, Args(deny...)...)
+		a = append(a, B(strconv.Itoa(len(hosts)/2)))
+		a = append(a, Args(hosts...)...)
+		a = append(a, Args(mode, strconv.Itoa(p.wk.status), "", "", "", p.wk.mode, p.wk.body, "0")...)
+		for _, e := range p.srv {
+			a = append(a, B(e[0]), B(e[1]), B(e[2]), B(strconv.Itoa((len(e)-3)/3)))
+			for _, x := range e[3:] {
+				a = append(a, B(x))
 			}
 		}
+		return a
+	}
+	for pi, p := range plans {
+		for qi, pol := range policies {
+			for k := 0; k <= 5; k++ {
+				if qi > 0 && k > 1 && (pi+qi+k)%3 != 0 && !c.Thorough() {
+					continue // the full range of failing handshakes under the open policy, a sample under the others
+				}
+				for nrt := 1; nrt <= 2; nrt++ {
+					if qi > 0 && nrt == 2 && k != 1 && !c.Thorough() {
+						continue
+					}
+					c.Run("C16.round_trip", mk(p, k, nrt, pol.allow, pol.deny), rtOp, rtProp,
+						fmt.Sprintf("round trip %s, lists: %s, first %d handshakes fail, %d round trips", p.label, pol.label, k, nrt))
+					c.Count("round_trip." + p.label)
+					c.Count("round_trip.lists=" + pol.label)
+				}
+			}
+		}
+	}
+	// a well-known reply that redirects to a host in a denied range (the redirect handling of
+	// net/http is outside the model: specification oracle only)
+	for _, pol := range policies {
+		p := plan{"wk-redirect", "example.com", "1", c16WK{label: "302", status: 302, mode: "ok", body: "https://redirected.example/.well-known/matrix/server"}, nil}
+		deny := append(append([]string{}, pol.deny...), "127.0.0.6/32")
+		c.Run("C16.round_trip", mk(p, 0, 1, pol.allow, deny), "", rtProp, "well-known redirect into a denied range, lists: "+pol.label)
+		c.Count("round_trip.redirect")
 	}
 }
 
